@@ -749,6 +749,80 @@ func (P *Prog) runsOnlyUnderTestFunc(fn *ssa.Function, funcField *types.Var, dep
 
 func (P *Prog) checkRelease(r *Result) {
 	sums := P.releaseSummaries()
+	// a function may also release what a *field* of its parameter holds (`ExecCtx.Free` freeing the issue collector it
+	// was constructed with): fieldRel[f][i] = the fields of parameter i whose value f releases; ctorStore[g][F] = the
+	// parameter of constructor g that ends up in field F of the object g returns. Together: `ctx := NewExecCtx(errs, ..);
+	// defer ctx.Free()` releases errs.
+	fieldRel := map[*ssa.Function]map[int][]*types.Var{}
+	ctorStore := map[*ssa.Function]map[*types.Var]int{}
+	for _, f := range P.Funcs {
+		if !inModule(funcPkgPath(f)) || f.Blocks == nil {
+			continue
+		}
+		paramIdx := func(v ssa.Value) int {
+			for i, q := range f.Params {
+				if ssa.Value(q) == v {
+					return i
+				}
+			}
+			return -1
+		}
+		eachInstr(f, func(_ *ssa.BasicBlock, _ int, in ssa.Instruction) {
+			if ci := callOf(in); ci != nil {
+				var released []ssa.Value
+				switch {
+				case isSyncPoolMethod(ci, "Put"):
+					released = append(released, ci.instr.Common().Args[1])
+				case ci.static != nil && sums[ci.static] != nil:
+					for k, a := range ci.args() {
+						if sums[ci.static][k] {
+							released = append(released, a)
+						}
+					}
+				case ci.invoke != nil && len(ci.args()) > 0:
+					for m, ps := range sums {
+						if ps[0] && m.Name() == ci.invoke.Name() && m.Signature.Recv() != nil {
+							released = append(released, ci.args()[0])
+							break
+						}
+					}
+				}
+				for _, rv := range released {
+					if base, fld := loadOfField(cvi(rv)); fld != nil {
+						if i := paramIdx(cvi(base)); i >= 0 {
+							if fieldRel[f] == nil {
+								fieldRel[f] = map[int][]*types.Var{}
+							}
+							fieldRel[f][i] = append(fieldRel[f][i], fld)
+						}
+					}
+				}
+			}
+			if st, ok := in.(*ssa.Store); ok {
+				if base, fld := fieldVar(st.Addr); fld != nil {
+					if k := paramIdx(cvi(st.Val)); k >= 0 {
+						// the object written is the one f returns
+						isRet := false
+						eachInstr(f, func(_ *ssa.BasicBlock, _ int, in2 ssa.Instruction) {
+							if rt, ok := in2.(*ssa.Return); ok {
+								for _, x := range rt.Results {
+									if cvi(x) == cvi(base) {
+										isRet = true
+									}
+								}
+							}
+						})
+						if isRet {
+							if ctorStore[f] == nil {
+								ctorStore[f] = map[*types.Var]int{}
+							}
+							ctorStore[f][fld] = k
+						}
+					}
+				}
+			}
+		})
+	}
 	n := 0
 	for _, fn := range P.Funcs {
 		type rel struct {
@@ -777,6 +851,23 @@ func (P *Prog) checkRelease(r *Result) {
 				for k, a := range ci.args() {
 					if sums[ci.static][k] {
 						rels = append(rels, rel{in, b, i, cvi(a), deferred, fname(ci.static)})
+					}
+				}
+			}
+			if ci.static != nil && fieldRel[ci.static] != nil {
+				for k, a := range ci.args() {
+					for _, fld := range fieldRel[ci.static][k] {
+						// what does that field of the argument hold? the argument was built by a constructor of this
+						// function that stored one of its parameters there
+						if mk, isCall := cvi(a).(*ssa.Call); isCall {
+							if ctor := callOf(mk).static; ctor != nil {
+								for cf, pk := range ctorStore[ctor] {
+									if sameField(cf, fld) && pk < len(mk.Call.Args) {
+										rels = append(rels, rel{in, b, i, cvi(mk.Call.Args[pk]), deferred, fname(ci.static) + " (through field " + fld.Name() + ")"})
+									}
+								}
+							}
+						}
 					}
 				}
 			}
